@@ -288,6 +288,8 @@ def r3(repo, run):
             detail = 'set_true=%s saved=%s restored_in_finally=%s' % (bool(set_true), saved, restored)
     if ok_shape:
         run.ok('C07.R3', cm, 'require_all_safe: flag := True before yield, previous value restored in finally', detail)
+    elif not detail or detail.startswith('set_true=False saved=None'):
+        raise AnalysisError('C07.R3: require_all_safe does not save / set / restore the strict flag in a recognised form (%s)' % (detail or 'no try around the yield'))
     else:
         run.violation('C07.R3', cm, 'require_all_safe save/set/restore', 'strict-mode flag is not set before the yield and restored in a finally block (%s)' % detail)
 
